@@ -210,6 +210,12 @@ def s7(ctx, rep, T):
     rep.analysed['S7:removing calls scanned'] = n
     if not bad:
         rep.ok('S7', 'no-item-removal', f'no removing operation on ParsedData.{{structs,enums,aliases,consts}} ({n} removing calls scanned)')
+    # … and the merge of per-file results keeps the items of both operands
+    for lst in ITEM_VECS:
+        got = pr.merge_sides(ctx, lst)
+        if got is None:
+            raise core.Incomplete('S7: `impl AddAssign for ParsedData` not found (the merge of per-file results)')
+        rep.check({'self', 'rhs'} <= got, 'S7', f'merge:{lst}-of-both-sides', 'ParsedData += keeps the items of both operands', f"ParsedData::add_assign leaves `{lst}` with the {sorted(got) or 'neither'} side only: the annotated items of the other operand disappear when per-file results are merged", {'file': 'core/src/parser.rs', 'line': 0})
     # members are only looked at after the skip filter
     NEUTRAL = ('is_skipped', 'iter', 'iter_mut', 'into_iter', 'filter', 'map', 'inspect', 'collect', 'len', 'is_empty', 'enumerate', 'peekable', 'clone', 'count')
     for fn in ('parse_struct', 'parse_enum', 'parse_enum_variant'):
